@@ -280,7 +280,16 @@ func C11(c *sim.Ctx) {
 	case "off":
 		validRun = false
 	}
-	g := &gen{t: t, sched: class == classSched, biased: class == classSched && !t.Chance("sched_unbiased", 1, 5), valid: validRun}
+	// another share calls the methods whose top-level parameters are narrow integers, float64, named
+	// scalar types with their own decoders and slices / pointers of those (scalar_types.go)
+	scalarRun := !validRun && t.Chance("scalar_methods", 1, 3)
+	switch c.Knobs["scalar"] { // experiment aid (JSIM_KNOB_scalar=only|off); not set by props
+	case "only":
+		validRun, scalarRun = false, true
+	case "off":
+		scalarRun = false
+	}
+	g := &gen{t: t, sched: class == classSched, biased: class == classSched && !t.Chance("sched_unbiased", 1, 5), valid: validRun, scalar: scalarRun}
 	input, label := g.input()
 	// Only an input that names one of the methods whose result cannot be serialised can reach the
 	// server's handling of a failed serialisation. Those runs (and every run of a process in which an
